@@ -64,7 +64,7 @@ mod substream;
 /// `verif_negotiate_connection`). Adds code only.
 #[cfg(feature = "verif")]
 pub mod verif {
-    pub use super::connection::TcpConnection;
+    pub use super::connection::{TcpConnection, VerifRawPeer};
 }
 
 /// Verification hooks: the real `TcpTransport` behind a public facade. Adds code only.
